@@ -953,6 +953,13 @@ def check_backends(root: str, files, rng: random.Random, stats=None) -> list[tup
                         if got != dict(files).get(p):
                             out.append(('walk-raw-listed-name-not-found', f'raw: listed {p!r} looks up to {got!r}',
                                         {'op': 'walk', 'backend': name, 'files': fj, 'folder': folder}))
+        # the file systems are read-only views: the directory handed to RawFileSystem (and the scratch folder around it)
+        # holds exactly what was put there
+        on_disk = sorted(os.path.relpath(os.path.join(dp, f), os.path.join(bt.dir, 'raw')).replace(os.sep, '/')
+                         for dp, _, fns in os.walk(os.path.join(bt.dir, 'raw')) for f in fns)
+        if on_disk != sorted(nm for nm, _ in files) or any(n not in ('a.zip', 'raw') and not (n.startswith('p_') and n.endswith('.vpk')) for n in os.listdir(bt.dir)):
+            out.append(('directory-modified', f'after the lookups and walks the directory holds {on_disk}, the scratch folder {sorted(os.listdir(bt.dir))}',
+                        {'op': 'backends', 'files': fj, 'seed': 0}))
     finally:
         bt.close()
     return out
@@ -1666,6 +1673,8 @@ def search(ck: Ck, root: str) -> None:
             if unshrinkable(key):
                 note([x for x in v if x[0] == key])
                 continue
+            if key in found and len(found[key][1].get('files(name,size)', [])) <= 2:
+                continue
             cur_s, cur_p = list(sized), params
             changed = True
             while changed and len(cur_s) > 1:
@@ -1708,6 +1717,9 @@ def search(ck: Ck, root: str) -> None:
             ck.hist('chain_members', len(perm))
             ck.hist('chain_prefixed_members', sum(1 for x in perm if x[2]))
             ck.hist('chain_priority_members', sum(1 for x in perm if x[3]))
+            ck.hist('chain_member_kinds', '+'.join(sorted({x[0] for x in perm})))
+            ck.hist('chain_same_label_archives', sum(1 for x in perm if x[0] == 'ziplabel'))
+            ck.hist('chain_member_added_twice', len(perm) - len({x[:3] for x in perm}))
             if len(perm) > 1:
                 ck.seen(('chain', perm, tuple(tuple(nm for nm, _ in s) for s in sets)))
             seed = ck.rng.randrange(1 << 30)
@@ -1801,9 +1813,7 @@ def run(ck: Ck) -> None:
         obs['vpk_open_bin_reads_whole_file'] = 'cexpr_whole false vpk_open_bin_content'
         obs['vpk_open_str_reads_whole_file'] = 'cexpr_whole false vpk_open_str_content'
         obs['vpk_reader_returns_preload_and_exact_rest'] = 'rexpr_whole None false vpk_reader'
-        for oname, ok in ck.instance_obligations(IMPORTS, obs).items():
-            if not ok:      # a decisive code shape is not the sound one: search on the escalated budgets
-                ck.tie_broken.append(f'instance obligation {oname} does not hold at the generated configuration')
+        failed_inst = [oname for oname, ok in ck.instance_obligations(IMPORTS, obs).items() if not ok]
         _td = time.time()
         def collect_instance_theorems() -> None:
             # the composition theorem instantiated at the generated configuration (type-checks only if today's chain
@@ -1838,6 +1848,11 @@ def run(ck: Ck) -> None:
             ck.obligation('translate:canonical-form-is-equivalent', False, f'executing filesys.py / its canonical form did not finish ({e})')
             ck.tie_broken.append('canonical form of filesys.py: execution did not finish')
         ck.extra.setdefault('stage_seconds', {})['canonical_validation'] = round(_t.time() - t3, 1)
+    if built:
+        # a decisive code shape is not the sound one: the *search* runs on the escalated budgets (the correspondence
+        # cases were built above on the normal ones: they validate the model, they are not what finds the input)
+        for oname in failed_inst:
+            ck.tie_broken.append(f'instance obligation {oname} does not hold at the generated configuration')
     t3 = _t.time(); search(ck, root); ck.extra.setdefault('stage_seconds', {})['search'] = round(_t.time() - t3, 1)
     if built:
         _te = time.time()
